@@ -160,67 +160,80 @@ def run_rule(res, facts, tier):
     LOC = facts.enumconst.get(NS + 'XPathExpression::eOP_LOCATIONPATH')
     doc, nodes = tree()
     w.doc = doc
-    found = {}
-    n_eval = 0
-    seen = set()
     allpaths = paths(tier)
     if tier != 'thorough':
         allpaths = [p for i, p in enumerate(allpaths) if len(p[1]) == 1 or i % 12 == 0 or (any('[' in st for _, st in p[1]) and i % 3 == 0)]
+    uniq, seen = [], set()
     for lead, steps in allpaths:
         toks = tokens_of(lead, steps)
-        if tuple(toks) in seen:
-            continue
-        seen.add(tuple(toks))
-        ptxt = ''.join(toks)
-        expr = Obj(NS + 'XPathExpression', {'m_opMap': Vec([], 'ops'), 'm_lastOpCodeIndex': 0, 'm_tokenQueue': Vec([], 'tokens'), 'm_currentPosition': 0,
-                                            'm_currentPattern': '', 'm_numberLiteralValues': Vec([])})
-        xp = Obj(NS + 'XPath', {'m_expression': expr, 'm_locator': 0, 'm_inStylesheet': 1})
-        parser = Obj(NS + 'XPathProcessorImpl', {'m_token': '', 'm_tokenChar': 0, 'm_xpath': 0, 'm_constructionContext': 0, 'm_expression': 0, 'm_prefixResolver': 0,
-                                                 'm_requireLiterals': 0, 'm_isMatchPattern': 0, 'm_positionPredicateStack': Vec([]), 'm_namespaces': Vec([]), 'm_locator': 0,
-                                                 'm_allowVariableReferences': 1, 'm_allowKeyFunction': 1})
-        w.calls = 0
-        w.pending = list(toks)
-        try:
-            m = OMachine(w, {}, parser)
-            m.fuel = 20000
-            m.run_body(init, [xp, 'CCTX', ptxt, 'RES', 0, 1, 1], parser)
-        except Reject as x:
-            raise AnalysisBroken('the expression parser rejects the valid path "%s" (%s)' % (ptxt, x))
-        except Fault as f:
-            r.violation('compiling ' + ptxt, 'the parser misbehaves: %s' % f, common.file_line(init)); continue
-        except Unsupported as u:
-            raise AnalysisBroken('compilation outside the interpreted subset on "%s": %s' % (ptxt, u))
-        ops = expr.fields['m_opMap']
-        if len(ops.items) < 4 or ops.items[2] != LOC:
-            raise AnalysisBroken('"%s" did not compile to a location path: %s' % (ptxt, ops.items[:6]))
-        for ctx in nodes:
-            n_eval += 1
+        if tuple(toks) not in seen:
+            seen.add(tuple(toks))
+            uniq.append((lead, steps))
+
+    def work(part):
+        found = {}
+        inst = 0
+        viol = []
+        for lead, steps in part:
+            toks = tokens_of(lead, steps)
+            ptxt = ''.join(toks)
+            expr = Obj(NS + 'XPathExpression', {'m_opMap': Vec([], 'ops'), 'm_lastOpCodeIndex': 0, 'm_tokenQueue': Vec([], 'tokens'), 'm_currentPosition': 0,
+                                                'm_currentPattern': '', 'm_numberLiteralValues': Vec([])})
+            xp = Obj(NS + 'XPath', {'m_expression': expr, 'm_locator': 0, 'm_inStylesheet': 1})
+            parser = Obj(NS + 'XPathProcessorImpl', {'m_token': '', 'm_tokenChar': 0, 'm_xpath': 0, 'm_constructionContext': 0, 'm_expression': 0, 'm_prefixResolver': 0,
+                                                     'm_requireLiterals': 0, 'm_isMatchPattern': 0, 'm_positionPredicateStack': Vec([]), 'm_namespaces': Vec([]), 'm_locator': 0,
+                                                     'm_allowVariableReferences': 1, 'm_allowKeyFunction': 1})
             w.calls = 0
-            out = NList()
+            w.pending = list(toks)
             try:
-                mm = OMachine(w, {}, xp)
-                mm.fuel = 40000
-                mm.run_body(stepfn, ['ECTX', ctx, It(ops, 4), out], xp)
-                got = list(out.items)
-                flag = out.flag
-            except Fault as f:
-                got, flag = 'FAULT: %s' % f, ''
+                m = OMachine(w, {}, parser)
+                m.fuel = 20000
+                m.run_body(init, [xp, 'CCTX', ptxt, 'RES', 0, 1, 1], parser)
             except Reject as x:
-                got, flag = 'ERROR: %s' % x, ''
+                raise AnalysisBroken('the expression parser rejects the valid path "%s" (%s)' % (ptxt, x))
+            except Fault as f:
+                viol.append(('compiling ' + ptxt, 'the parser misbehaves: %s' % f, common.file_line(init))); continue
             except Unsupported as u:
-                raise AnalysisBroken('evaluation outside the interpreted subset on "%s" from %s: %s' % (ptxt, ctx.name, u))
-            want = ref_eval(lead, steps, ctx, doc, nodes)
-            if got == want and (flag == 'document' or len(got) == 0):
-                r.instances += 1
-                continue
-            r.instances += 1
-            shape = ' '.join('%s%s%s' % (sp or '', step_spec(st)[0], '[n]' * len(split_index(st)[1])) for sp, st in steps)
-            key = (lead or 'rel', shape)
-            if key not in found:
-                found[key] = (ptxt, ctx, got, want, flag)
+                raise AnalysisBroken('compilation outside the interpreted subset on "%s": %s' % (ptxt, u))
+            ops = expr.fields['m_opMap']
+            if len(ops.items) < 4 or ops.items[2] != LOC:
+                raise AnalysisBroken('"%s" did not compile to a location path: %s' % (ptxt, ops.items[:6]))
+            for ctx in nodes:
+                w.calls = 0
+                out = NList()
+                try:
+                    mm = OMachine(w, {}, xp)
+                    mm.fuel = 40000
+                    mm.run_body(stepfn, ['ECTX', ctx, It(ops, 4), out], xp)
+                    got = list(out.items)
+                    flag = out.flag
+                except Fault as f:
+                    got, flag = 'FAULT: %s' % f, ''
+                except Reject as x:
+                    got, flag = 'ERROR: %s' % x, ''
+                except Unsupported as u:
+                    raise AnalysisBroken('evaluation outside the interpreted subset on "%s" from %s: %s' % (ptxt, ctx.name, u))
+                want = ref_eval(lead, steps, ctx, doc, nodes)
+                inst += 1
+                if got == want and (flag == 'document' or len(got) == 0):
+                    continue
+                shape = ' '.join('%s%s%s' % (sp or '', step_spec(st)[0], '[n]' * len(split_index(st)[1])) for sp, st in steps)
+                key = (lead or 'rel', shape)
+                if key not in found:
+                    found[key] = (ptxt, ctx.name, repr(got), repr(want), flag)
+        return inst, found, viol
+    from ..report import fork_map
+    nparts = 6 if tier == 'thorough' else 4
+    found = {}
+    for inst, fnd, viol in fork_map(work, [uniq[i::nparts] for i in range(nparts)]):
+        r.instances += inst
+        for site, what, loc in viol:
+            r.violation(site, what, loc)
+        for k2, v in fnd.items():
+            found.setdefault(k2, v)
     for (lead, shape), (ptxt, ctx, got, want, flag) in sorted(found.items()):
         r.instances -= 1
-        r.violation('path shape %s %s' % (lead, shape), '%s from %s delivers %s%s; XPath 1.0: %s' % (ptxt, ctx.name, got, ' (flagged %s)' % flag if flag != 'document' else '', want),
+        r.violation('path shape %s %s' % (lead, shape), '%s from %s delivers %s%s; XPath 1.0: %s' % (ptxt, ctx, got, ' (flagged %s)' % flag if flag != 'document' else '', want),
                     common.file_line(stepfn))
     r.note('%d paths x %d context nodes' % (len(seen), len(nodes)))
     return r
